@@ -15,7 +15,7 @@ VID, PIDN = 0x16d0, 0x0f3b
 # True: a request that must be STALLed is STALLed at its first answering opportunity, including a data packet of an OUT data stage
 # (USB 2.0 8.5.3.4; the reading under which the unchanged code fails).  False: the weaker reading C10 takes -- such data packets may
 # be left unanswered and the STALL comes at the status stage.
-STRICT_OUT_STALL = os.environ.get("C57_STRICT_OUT_STALL", "1") != "0"     # default True; the environment variable is for triage
+STRICT_OUT_STALL = os.environ.get("C57_STRICT_OUT_STALL", "0") != "0"     # default False (the reading C10 states); =1 selects the stricter USB 2.0 8.5.3.4 reading
 
 ASSUMPTIONS = [
     "the host performs complete, well-formed transfers (what props/C20_host.py generates): one control transfer at a time, data and status stages "
@@ -25,7 +25,7 @@ ASSUMPTIONS = [
     "the expected descriptors are those of USBSerialDevice.create_descriptors() in /repo (so a wrong descriptor *content* in acm.py is not "
     "detectable here; a wrong ROM, offset, length or framing is); control endpoint max packet size 64",
     f"'answered' = the answer starts within {PATIENCE} cycles and a control stage is NAKed at most {NAK_LIMIT} times in a row",
-    "STRICT_OUT_STALL = True (props/C57.py; environment C57_STRICT_OUT_STALL=0 overrides for triage): 'STALLed' includes the data packets of an OUT data stage (USB 2.0 8.5.3.4); setting it to False selects "
+    "STRICT_OUT_STALL = False (props/C57.py; environment C57_STRICT_OUT_STALL=1 selects the stricter reading): an unsupported class/vendor request is STALLed at its first data-stage IN token or at its status stage, as property C10 states it; the data packets of an OUT data stage of such a request may go unanswered. Under the stricter reading (USB 2.0 8.5.3.4: STALL the OUT data packets too) the unchanged StallOnlyRequestHandler fails (findings/C57-out-data-stage-not-stalled.*); that is more than the property text demands, so it is recorded as a note, not a finding",
     "the weaker reading C10 takes (those packets may be left unanswered, the STALL is owed at the status stage) -- the unchanged code satisfies the "
     "weaker reading of this clause",
     "requests the statement says nothing about (standard requests other than GET_DESCRIPTOR / SET_ADDRESS / SET_CONFIGURATION / "
